@@ -223,6 +223,15 @@ func runR2e(c *Ctx, s *r2State) {
 					}
 					s.note("R2e", core.FuncName(fd.Obj)+"/callback-under-mutex", ev.Pos, !held, "the callback runs with the mutex held on every path",
 						"the callback is invoked on a path on which the Broadcast mutex is not held", p)
+					// the callback is client code and may panic: the mutex is released by a deferred Unlock
+					deferred := false
+					for _, b := range p.Events {
+						if b.Kind == core.KDefer && b.Callee != nil && b.Callee.Name() == "Unlock" && b.Seq < ev.Seq {
+							deferred = true
+						}
+					}
+					s.note("R2e", core.FuncName(fd.Obj)+"/unlock-deferred", ev.Pos, !deferred, "the mutex is released by a deferred Unlock registered before the client callback runs",
+						"the mutex is not released by a deferred Unlock: if the client callback panics (and the caller recovers) the Broadcast stays locked and every waiter blocks forever", p)
 				}
 			})
 		}
@@ -359,16 +368,47 @@ func (s *r2State) interruptPath(d *core.FuncDecl, ctxP *types.Var, chans []*type
 	recvErr := map[*types.Var]bool{} // local holding an error received from an error channel
 	guarded := map[*types.Var]bool{} // … and tested != nil on this path
 	cancelEv := false
-	ctxArm := false // the select arm taken last was the ctx.Done() arm
+	ctxArm := false      // the select arm taken last was the ctx.Done() arm
+	cancelArm := false   // … was the arm on a cancel-channel parameter
+	var cbErr *types.Var // error returned by a client callback parameter of this function
+	pvs := paramVars(d)
 	for i, ev := range p.Events {
+		// err returned by a client callback parameter (possibly called inside a section literal)
+		if ev.Kind == core.KAssign && ev.Rhs != nil && ev.RhsIdx >= 0 {
+			if call, ok := unparen(ev.Rhs).(*ast.CallExpr); ok {
+				if fv := identVar(call.Fun, ev.Frame); fv != nil {
+					for _, q := range pvs {
+						if q == fv {
+							if lv := identVar(ev.Lhs, ev.Frame); lv != nil && isErrorType(lv.Type()) {
+								cbErr = lv
+							}
+						}
+					}
+				}
+			}
+		}
 		if ev.Frame.Parent != nil {
 			continue // own body only
 		}
 		switch ev.Kind {
 		case core.KLoop:
 			ctxEv, closedEv, cancelEv = false, false, false
-			ctxArm = false
+			ctxArm, cancelArm = false, false
 		case core.KAssign:
+			// err returned by a client callback parameter: done, err = cb(…)
+			if ev.Rhs != nil && ev.RhsIdx >= 0 {
+				if call, ok := unparen(ev.Rhs).(*ast.CallExpr); ok {
+					if fv := identVar(call.Fun, ev.Frame); fv != nil {
+						for _, q := range pvs {
+							if q == fv {
+								if lv := identVar(ev.Lhs, ev.Frame); lv != nil && isErrorType(lv.Type()) {
+									cbErr = lv
+								}
+							}
+						}
+					}
+				}
+			}
 			// derived contexts: x, cancel := context.WithCancel(ctx)
 			if ev.Rhs != nil {
 				if call, ok := unparen(ev.Rhs).(*ast.CallExpr); ok && ev.RhsIdx <= 0 {
@@ -447,6 +487,18 @@ func (s *r2State) interruptPath(d *core.FuncDecl, ctxP *types.Var, chans []*type
 			} else if ev.InSelect {
 				ctxArm = false
 			}
+			if ev.InSelect {
+				cancelArm = false
+				if chv := identVar(ev.Chan, ev.Frame); chv != nil {
+					for _, cp := range chans {
+						if ch, ok := cp.Type().Underlying().(*types.Chan); ok && cp == chv {
+							if st, ok := ch.Elem().Underlying().(*types.Struct); ok && st.NumFields() == 0 {
+								cancelArm = true
+							}
+						}
+					}
+				}
+			}
 			if chv := identVar(ev.Chan, ev.Frame); chv != nil {
 				for _, cp := range chans {
 					if cp == chv {
@@ -480,6 +532,29 @@ func (s *r2State) interruptPath(d *core.FuncDecl, ctxP *types.Var, chans []*type
 				s.blockingSite(name, ev, nil, ctxP, ctxs, chans, p)
 			}
 		case core.KReturn:
+			// the arm on a cancel channel of promise.(*Promise).AwaitWithCancelCh reports context.Canceled:
+			// PromiseContainer's await loops pass their replacement channel there and read Canceled as "replaced"
+			if cancelArm && len(ev.Results) > 0 && core.RecvNamed(d.Obj) != nil && core.RecvNamed(d.Obj).Obj().Name() == "Promise" {
+				last := core.ExprString(ev.Results[len(ev.Results)-1])
+				s.note("R17", name+"/cancel-arm-returns-canceled", ev.Pos, last != "context.Canceled",
+					"the cancel-channel arm returns context.Canceled",
+					"the cancel-channel arm returns "+last+" instead of context.Canceled: PromiseContainer's await loops, which pass the replacement channel as cancel channel, take the return for a result of the promise", p)
+			}
+			// nil success only when the client callback's own error is nil
+			if cbErr != nil && len(ev.Results) > 0 {
+				last := ev.Results[len(ev.Results)-1]
+				var rt types.Type
+				if sig, ok := d.Obj.Type().(*types.Signature); ok && sig.Results().Len() == len(ev.Results) {
+					rt = sig.Results().At(len(ev.Results) - 1).Type()
+				}
+				if rt != nil && isErrorType(rt) && isNilExpr(last, ev.Frame) {
+					g := prepare(c, p)
+					ok, _ := implies(g.litsBefore(i, false), eq("nil", c.Role(cbErr)))
+					s.note("R17", name+"/nil-only-without-callback-error", ev.Pos, !ok,
+						"nil is returned only when the client callback's error is known to be nil",
+						"nil is returned on a path that has not excluded a non-nil error from the client callback: the callback's error is dropped", p)
+				}
+			}
 			if ctxArm && len(ev.Results) > 0 {
 				last := ev.Results[len(ev.Results)-1]
 				var rt types.Type
